@@ -417,6 +417,22 @@ def explode(src):
     return [",\n".join(steps[:-1] + ["[" + p + "]"]) for p in parts]
 
 
+def cut_cons_tails(src):
+    """every outermost `Cons[h, t]` literal becomes `Cons[h, Nil]`"""
+    out, i = [], 0
+    flat = src.replace("[", "(").replace("]", ")").replace("{", "(").replace("}", ")")
+    while i < len(src):
+        if src.startswith("Cons[", i) and (i == 0 or not (src[i - 1].isalnum() or src[i - 1] == "_")):
+            j = balanced_end(flat, i + 4)
+            parts = split_top(src[i + 5:j])
+            if len(parts) == 2:
+                out.append("Cons[" + parts[0].strip() + ", Nil]")
+                i = j + 1
+                continue
+        out.append(src[i]); i += 1
+    return "".join(out)
+
+
 def prefixes(src):
     """programs that stop early: after each term of each top-level step (latest first)"""
     steps = split_steps(src)
@@ -452,8 +468,8 @@ def prefixes(src):
 FINDING_IDS = {
     "tail-call-arg": "F1", "union-to-generic": "F2", "nil-binder": "F27", "stale-narrowing": "F53",
     "match-provenance": "F54", "recursive-binder": "F59",
-    "nil-through-type-test": "F13c01", "failed-match-binder": "C01-failed-match-binder", "tail-branch-never": "C01-tail-branch-never",
-    "unify-recursive-tail": "C01-unify-recursive-tail", "partial-position": "C01-partial-position",
+    "nil-through-type-test": "F13c01", "failed-match-binder": "C01-failed-match-binder", "tail-branch-never": "F66",
+    "unify-recursive-tail": "F67", "partial-position": "F68", "implicit-nil-application": "F58",
 }
 
 
@@ -497,7 +513,8 @@ class Classifier:
                          ("match-provenance", self.sig_f54), ("tail-call-arg", self.sig_f1),
                          ("partial-position", self.sig_partial), ("nil-through-type-test", self.sig_f13),
                          ("tail-branch-never", self.sig_tail_never), ("unify-recursive-tail", self.sig_unify_cycle),
-                         ("recursive-binder", self.sig_f59), ("union-to-generic", self.sig_f2)):
+                         ("recursive-binder", self.sig_f59), ("union-to-generic", self.sig_f2),
+                         ("implicit-nil-application", self.sig_f58)):
             try:
                 if fn(src, mods, failure):
                     return name
@@ -513,19 +530,22 @@ class Classifier:
 
     def sig_partial(self, src, mods, failure):
         s0 = strip_strings(src)
-        order = []
+        orders = []
         for m in self.PARTIAL_RE.finditer(s0):
             labs = [m.group(1)] + re.findall(r",\s*([a-z_][A-Za-z0-9_]*)", m.group(2) or "")
-            for l in labs:
-                if l not in order:
-                    order.append(l)
-        if not order:
+            if labs not in orders:
+                orders.append(labs)
+        if not orders:
             return False
-        variant = canon_fields(src, order)
-        if variant == src:
+        variants = []
+        for labs in orders[:6]:
+            v = canon_fields(src, labs)
+            if v != src and v not in variants:
+                variants.append(v)
+        if not variants:
             return False
-        rec = self.outcomes([variant], mods)[0]
-        return rec["status"] == "accepted" and not rec["failure"]
+        recs = self.outcomes(variants, mods)
+        return any(r["status"] == "accepted" and not r["failure"] for r in recs)
 
     # ---- nil-through-type-test (F13): nil passes a later `='T` test after an earlier branch narrowed
     # the union. Signature: the program applies a callable to the literal nil, and the failure is
@@ -558,19 +578,50 @@ class Classifier:
     def sig_unify_cycle(self, src, mods, failure):
         s0 = strip_strings(src)
         rec_aliases = re.findall(r"'([a-z_][A-Za-z0-9_]*)\s*(?:<[^=\n]*>)?\s*=[^\n]*\^", s0)
-        if not rec_aliases:
-            return False
         for m in re.finditer(r"#<[^{}]*\{", s0):
             if any(re.search(r"'" + re.escape(a) + r"(?![A-Za-z0-9_])", m.group(0)) for a in rec_aliases):
                 return True
-        return False
+        # generic functions over the std recursive list type (%list / %iter): semantic arm — the
+        # failure depends on the recursive TAIL of a list literal: with every outermost
+        # `Cons[h, t]` literal cut to `Cons[h, Nil]` the program is accepted and passes
+        if not re.search(r"%(list|iter)\b", s0):
+            return False
+        v = cut_cons_tails(src)
+        if v == src:
+            return False
+        rec = self.outcomes([v], mods)[0]
+        return rec["status"] == "accepted" and not rec["failure"]
+
+    # ---- implicit-nil-application (F58): a callable at the HEAD of a chain (a builtin `__b__` or an
+    # import `%m.f`) is applied to the implicit flowing nil with no argument check. Signature: with
+    # an explicit `[]` written before that head the compiler REJECTS the program.
+    HEAD_RE = re.compile(r"(^|[=,{|\n(\[]\s*|=>\s*)(__[a-z0-9_]+__|%[a-z][A-Za-z0-9_/]*(?:\.[a-z][A-Za-z0-9_?!]*)+)")
+
+    def sig_f58(self, src, mods, failure):
+        if failure.get("kind") != "vm-type-failure":
+            return False
+        variants = []
+        for m in self.HEAD_RE.finditer(src):
+            variants.append(src[:m.start(2)] + "[] " + src[m.start(2):])
+        if not variants:
+            return False
+        recs = self.outcomes(variants[:6], mods)
+        return any(r["status"] == "compile-error" for r in recs)
 
     # ---- recursive-binder (F59): a binder taken from a back-reference position keeps a Cycle that
     # re-binds. Signature: the judgement rejects but accepts when variants of recursive types read
     # as top; for a VM-level failure: some PREFIX of the program shows that symptom.
     def sig_f59(self, src, mods, failure):
         if failure.get("kind") == "result-not-in-inferred-type":
-            return bool(failure.get("lenient"))
+            if failure.get("lenient"):
+                return True
+            # second arm: a recursive alias is declared, a function destructures it with binders,
+            # and the value does inhabit a function's DECLARED result type (the call site's type has
+            # the back-reference re-bound, e.g. to the enclosing function type)
+            s0 = strip_strings(src)
+            return bool(failure.get("fnres")) and re.search(r"'[a-z_][A-Za-z0-9_]*\s*(?:<[^=\n]*>)?\s*=[^\n]*\^", s0) is not None \
+                and re.search(r"#[^{}]*\{[^{}]*=[A-Z][A-Za-z0-9_]*\[[^\]]*[a-z]", s0) is not None \
+                and re.search(r"\S\s+\^\s*[}|\n,]", s0) is None
         recs = self.outcomes(prefixes(src)[:16], mods)
         return any(r["status"] == "accepted" and r["failure"] and r["failure"].get("lenient") for r in recs)
 
